@@ -101,6 +101,10 @@ func newC14Pair(ca, cb jsonrpc2.Codec, limit, discard int) *c14Pair {
 	srvB.RegisterMethod("echo_echo", p.sb, "Echo")
 	p.a = &jsonrpc2.Remote{Codec: ca, Server: srvA, Client: &jsonrpc2.Client{}, PendingLimit: limit, PendingDiscard: discard}
 	p.b = &jsonrpc2.Remote{Codec: cb, Server: srvB, Client: &jsonrpc2.Client{}, PendingLimit: limit, PendingDiscard: discard}
+	if discard%2 == 1 || (limit == 0 && discard == 0 && c14NoClient()) {
+		// a Remote may be built without a Client (it then creates its own on first use)
+		p.a.Client, p.b.Client = nil, nil
+	}
 	p.sa.self, p.sb.self = p.a, p.b
 	for _, es := range []*EchoService{p.sa, p.sb} {
 		loc := &jsonrpc2.Local{}
@@ -116,6 +120,11 @@ func newC14Pair(ca, cb jsonrpc2.Codec, limit, discard int) *c14Pair {
 }
 
 // c14Round runs one round of concurrent callers on both ends.
+var c14Flip int32
+
+// c14NoClient alternates between Remotes with and without an explicit Client.
+func c14NoClient() bool { return atomic.AddInt32(&c14Flip, 1)%2 == 0 }
+
 var c14Stalls int32 // rounds that stalled; after a few the remaining rounds are skipped (the verdict is already a violation)
 
 func c14Round(ev *vlib.Evidence, transport string, idx int) {
